@@ -1,3 +1,3 @@
 module go2coq
 
-go 1.21
+go 1.22
